@@ -38,6 +38,9 @@ type Probe struct {
 	ListCap  int
 	curDepth int
 	MaxNest  int
+	// InLen >= 0: the remaining input is computed from the input length (base position 1),
+	// independently of the library's Reader.Remaining
+	InLen int
 }
 
 type snap struct {
@@ -56,7 +59,7 @@ type boundExceeded struct{ msg string }
 
 func NewProbe() *Probe {
 	return &Probe{active: map[[2]int]int{}, maxActive: map[[2]int]int{}, evals: map[[2]int]int{}, asks: map[[2]int]int{},
-		Bound: true, Budget: 20000, ListCap: 200, MaxSlack: -1 << 30}
+		Bound: true, Budget: 20000, ListCap: 200, MaxSlack: -1 << 30, InLen: -1}
 }
 
 // BuildOpts selects how a grammar model is turned into parsley parsers.
@@ -242,6 +245,9 @@ func Build(g *Grammar, o BuildOpts) *Built {
 						probe.MaxDepth = d
 					}
 					rem := ctx.Reader().Remaining(pos)
+					if probe.InLen >= 0 {
+						rem = probe.InLen - (int(pos) - 1)
+					}
 					if d-(rem+2) > probe.MaxSlack {
 						probe.MaxSlack = d - (rem + 2)
 					}
